@@ -44,6 +44,12 @@ def run_chunk(case: dict) -> dict:
     from tel2puml.utils import unix_nano_to_pv_string
     from tel2puml.pv_to_tel import convert_timestamp_to_unix_nano
 
+    # the conversions are defined on UTC ("Z") strings: the time zone of the process must not
+    # matter - every chunk runs under its own POSIX TZ rule (no tz database needed)
+    import os
+    import time
+    os.environ["TZ"] = case.get("tz", "UTC0")
+    time.tzset()
     rng = random.Random(case["rng_seed"])
     values = list(case.get("us_values", []))
     values += [rng.randrange(0, MAX_US + 1) for _ in range(case["n_random"])]
@@ -54,7 +60,7 @@ def run_chunk(case: dict) -> dict:
 
     def fail(kind: str, **kw) -> None:
         if len(fails) < 10:
-            fails.append(dict(kind=kind, **kw))
+            fails.append(dict(kind=kind, tz=case.get("tz", "UTC0"), **kw))
         counts["fail_" + kind] = counts.get("fail_" + kind, 0) + 1
 
     for us in values:
@@ -106,7 +112,8 @@ def run_chunk(case: dict) -> dict:
             fail("order", a=prev[0], b=us, sa=prev[1], sb=s)
         prev = (us, s)
     counts["distinct_fraction_digits"] = len(fr_seen)
-    return {"status": "ok", "n": len(values), "distinct": len(set(values)), "fails": fails,
+    return {"status": "ok", "tz": case.get("tz", "UTC0"), "n": len(values),
+            "distinct": len(set(values)), "fails": fails,
             "counts": counts, "sample": [[v, exact_string(v)] for v in values[:2]]}
 
 
@@ -118,7 +125,10 @@ def build_cases(tier: str, seed: int) -> list[dict]:
     cases = []
     for i in range(nchunks):
         cases.append({"rng_seed": f"c16-{seed}-{i}", "n_random": n_random // nchunks,
-                      "us_values": b[i::nchunks]})
+                      "us_values": b[i::nchunks],
+                      "tz": ["UTC0", "IST-5:30", "EST5EDT,M3.2.0,M11.1.0",
+                             "CET-1CEST,M3.5.0,M10.5.0/3", "NZST-12NZDT,M9.5.0,M4.1.0/3",
+                             "UTC0"][i % 6]})
     return cases
 
 
@@ -130,11 +140,14 @@ def main(tier: str, seed: int) -> int:
              "6 nanosecond offsets inside the microsecond; distinct = distinct microsecond "
              "values, all non-trivial (every one is compared with integer arithmetic)")
     chk.assumptions = ["oracle = python integer arithmetic on datetime/timedelta",
-                       "for non-microsecond inputs floor or round are both accepted"]
+                       "for non-microsecond inputs floor or round are both accepted",
+                       "chunks run under different process time zones (TZ + tzset): the "
+                       "conversions are defined on UTC strings and must not depend on it"]
     results, notes = core.run_workers("checks.c16", "run_chunk", build_cases(tier, seed), case_wall=5000, timeout=6000)
     for n in notes:
         chk.note_inconclusive(n)
     distinct = 0
+    tzs: set = set()
     for r in results:
         if r.get("status") != "ok":
             chk.note_inconclusive(f"worker: {r.get('status')} {r.get('detail')}")
@@ -146,10 +159,12 @@ def main(tier: str, seed: int) -> int:
         for s in r["sample"]:
             if len(chk.samples) < 8:
                 chk.samples.append({"unix_us": s[0], "pv_string": s[1]})
+        tzs.add(r.get("tz"))
         for f in r["fails"]:
             chk.violation(f["kind"], f, tags=["timestamp"])
     chk.distinct = {str(i) for i in range(distinct)}  # chunks draw disjoint streams
     chk.extra["boundary_values"] = len(boundary_us())
+    chk.extra["process_time_zones"] = sorted(t for t in tzs if t)
     return chk.finish()
 
 
@@ -168,7 +183,8 @@ def replay(path: str) -> int:
         print("cannot derive the instant from", case)
         return 2
     results, notes = core.run_workers(
-        "checks.c16", "run_chunk", [{"rng_seed": "replay", "n_random": 0, "us_values": [us]}],
+        "checks.c16", "run_chunk", [{"rng_seed": "replay", "n_random": 0, "us_values": [us],
+                                     "tz": case.get("tz", "UTC0")}],
         nproc=1)
     print(json.dumps(results, indent=1))
     bad = any(r.get("fails") for r in results)
